@@ -26,7 +26,8 @@ CaseRecord(d) ==
       valid == POValidate(body)
       ns == PONsFor(d) IN
   IF ~valid
-  THEN [id |-> POFamId(d), parts |-> body, valid |-> FALSE]
+  THEN [id |-> POFamId(d), parts |-> body, valid |-> FALSE, feat |-> "plural-po-cannot-carry",
+        exp |-> [i \in 1..Len(ns) |-> [n |-> ns[i], src |-> Outcome(PORenderSrc(body, POEnv(ns[i]))), loc |-> <<>>]]]
   ELSE LET e == POExtract(m) IN
        [id |-> POFamId(d), parts |-> body, valid |-> TRUE,
         names |-> PONames(body), phstr |-> PlaceholderString(body), key |-> MsgKeyString(body),
